@@ -24,6 +24,7 @@ COLOURS = {'a': (230, 20, 20), 'b': (20, 170, 20), 'c': (20, 20, 230), 'g': (230
 BG = (255, 255, 255)
 SRS = 'EPSG:3857'
 SRS_ALIAS = 'EPSG:900913'
+SECOND_GRID = ['GLOBAL_GEODETIC']     # (EPSG:4326: none of the worlds uses it, the tile set is only listed)
 SRS_PATH = 'EPSG3857'
 GRID = dict(bbox=(0, 0, 1280, 640), res=(40, 20, 10), tile_size=(4, 4))      # level sizes: 8x4, 16x8, 32x16 tiles
 # window of all limited_to geometries (the outer ring of cells is never a member)
@@ -187,7 +188,8 @@ class App(object):
             sources['s' + n] = src
             if kind in ('wmsT', 'wmsO'):
                 return ['s' + n]
-            caches['c' + n] = {'grids': ['g'], 'sources': ['s' + n], 'meta_size': [2, 2], 'meta_buffer': 0,
+            # every cached layer has a second tile set (another grid): the capabilities of the tile services list both
+            caches['c' + n] = {'grids': ['g'] + SECOND_GRID, 'sources': ['s' + n], 'meta_size': [2, 2], 'meta_buffer': 0,
                                'format': 'image/jpeg' if kind == 'cachej' else 'image/png', 'disable_storage': True}
             return ['c' + n]
 
@@ -233,7 +235,7 @@ class App(object):
             return r
         self.log.append((n, 'map'))
         lay = q.get('layers', n).replace('%2C', ',').split(',')
-        if lay != [n]:
+        if set(lay) != {n}:       # (a layer that is named twice in LAYERS is asked for twice, in one combined request)
             self.unknown.append('combined request: ' + url)
         r = _Resp(flat_png((int(q['width']), int(q['height'])), COLOURS[n]))
         r.headers = {'Content-type': 'image/png'}
